@@ -212,7 +212,7 @@ func c07(c *core.Ctx) {
 				continue
 			}
 			fn := declaredMethod(p, nt, "RecvMsg")
-			for _, r := range core.Returns(fn) {
+			for _, r := range core.ErrReturns(fn) {
 				n++
 				ev := r.Results[len(r.Results)-1]
 				key := typeKey(nt) + ".RecvMsg:return"
